@@ -93,7 +93,12 @@ class SymEvo:
         idx = [i for i, x in enumerate(self.tlist) if abs(x - t) < 1e-12]
         if len(idx) != 1:
             raise RuntimeError("time %r is not a grid point of the stand-in" % (t,))
-        acc = {}
+        # identical coefficient vectors (e.g. every ns of a constant pulse) give the identical matrix: built once
+        key = tuple(None if c is None else ckey(c[idx[0]]) for _, c in self.terms)
+        memo = self.__dict__.setdefault("_memo", {})
+        if key in memo:
+            return memo[key]
+        acc = memo[key] = {}
         for op, c in self.terms:
             k = 1.0 if c is None else c[idx[0]]
             if not is_sym_c(k) and k == 0:
@@ -101,6 +106,18 @@ class SymEvo:
             for (r, col), v in sparse(op).items():
                 acc[(r, col)] = acc.get((r, col), SCplx(0.0, 0.0)) + SCplx.lift(k) * SCplx.lift(v)
         return acc
+
+
+def ckey(x):
+    """Structural key of a number / proxy / complex proxy (z3 terms are hash-consed: equal id <=> same term)."""
+    x = core._np_item(x)
+    if isinstance(x, SCplx):
+        return ("c", ckey(x.re), ckey(x.im))
+    if is_sym(x):
+        return ("z", x.e.get_id())
+    if isinstance(x, complex):
+        return ("c", x.real, x.imag)
+    return float(x)
 
 
 def is_sym_c(x):
@@ -199,15 +216,16 @@ def mk_reg(kind):
 A = lambda n: S(n, lo=0.5, hi=10)  # noqa: E731  amplitude that is certainly non-zero
 A0 = lambda n: S(n, lo=0, hi=10)  # noqa: E731  amplitude that may vanish
 D = lambda n: S(n, lo=-20, hi=20)  # noqa: E731
+DN = lambda n: S(n, lo=0.5, hi=20)  # noqa: E731  detuning that is certainly non-zero (keeps the number of zero/non-zero forks down)
 
 PROGRAMS = {
     # three levels, global + local Rydberg + local Raman, 27x27
     "ising_all": dict(device="mock", reg="tri3", prog=[
         ["declare", "g", "rydberg_global"], ["declare", "l", "rydberg_local", "q1"], ["declare", "r", "raman_local", "q0"],
-        ["add", "g", ["cp", 6, A("a0"), D("d0"), 0.37]],
+        ["add", "g", ["cp", 6, A("a0"), DN("d0"), 0.37]],
         ["add", "l", ["cp", 5, A0("a1"), D("d1"), 0.74]],
         ["target", "l", "q2"],
-        ["add", "l", ["pulse", ["ramp", 4, S("a2", lo=0, hi=5), S("a3", lo=5, hi=10)], ["const", 4, D("d2")], 1.11]],
+        ["add", "l", ["pulse", ["ramp", 4, S("a2", lo=0, hi=5), S("a3", lo=5, hi=10)], ["const", 4, DN("d2")], 1.11]],
         ["add", "r", ["cp", 7, A0("a4"), D("d3"), 1.48], "min-delay"]]),
     # only the digital basis
     "digital": dict(device="mock", reg="line2", prog=[
@@ -472,6 +490,14 @@ class Oracle:
                     scale[k] = scale.get(k, 0.0) + abs(U)
         return H, scale
 
+    def key(self, t):
+        """Everything hamiltonian(t, ...) depends on."""
+        out = [t < self.mask_end]
+        for (q, basis, tt), lst in self.drive.items():
+            if tt == t:
+                out.append((q, basis, tuple((ckey(a), ph, n) for a, ph, n in lst), ckey(self.det.get((q, basis, t), 0.0))))
+        return tuple(sorted(out, key=repr))
+
     def _pair_keys(self, d, i, j, xs, ys):
         tmp = {}
         self.add_pair(tmp, d, i, j, xs, ys, SCplx(0.0, 0.0))
@@ -551,10 +577,19 @@ def h_program(shape):
         times = [int(round(float(x) * 1000)) for x in em.sampling_times]
         obs.append(("ham:sampled_times", times[0] == 0 and times[-1] == orc.T and all(a < b for a, b in zip(times, times[1:]))
                     and (rate != 1.0 or times == list(range(orc.T + 1)))))
+        by_time = {}
+        for (q_, b_, t_) in orc.drive:
+            by_time.setdefault(t_, None)
+        seen = {}
         for t in times:
             if t >= orc.T:
                 continue
             code = entries_of(em.get_hamiltonian(t))
+            okey = (id(code) if isinstance(em._hamiltonian._hamiltonian, SymEvo) else t, orc.key(t))
+            if okey in seen and t not in resid:
+                # same matrix, same reference as at an earlier time: the obligations would be the very same terms
+                continue
+            seen[okey] = t
             ref, scale = orc.hamiltonian(t, eig, used)
             off, diag = compare(code, ref, scale)
             herm = []
